@@ -72,7 +72,7 @@ impl TokenType {
 impl Display for TokenType {
     fn fmt(&self, f: &mut std::fmt::Formatter) -> std::fmt::Result {
         match self {
-            TokenType::Label(s) => writeln!(f, "LABEL({s})"),
+            TokenType::Label(s) => write!(f, "LABEL({s})"),
             TokenType::Symbol(s) => write!(f, "SYMBOL({s})"),
             TokenType::Directive(s) => write!(f, "DIRECTIVE({s})"),
             TokenType::String(s) => write!(f, "STRING({s})"),
